@@ -215,7 +215,10 @@ func fieldType(ntype reflect.Type, name string) (reflect.Type, bool) {
 				return f.Type, true
 			}
 		case reflect.Map:
-			return ntype.Elem(), true
+			// The VM looks the name up as a string key.
+			if stringType.AssignableTo(ntype.Key()) {
+				return ntype.Elem(), true
+			}
 		}
 	}
 
@@ -254,7 +257,9 @@ func methodType(t reflect.Type, name string) (reflect.Type, bool, bool) {
 			}
 
 		case reflect.Map:
-			return d.Elem(), false, true
+			if stringType.AssignableTo(d.Key()) {
+				return d.Elem(), false, true
+			}
 		}
 	}
 	return nil, false, false
